@@ -30,6 +30,15 @@ def cases(ctx):
                 tx = Transaction(ins, [TxOutput(1000, Script(['OP_1', 'aa' * 32]))], has_segwit=True, witnesses=wits)
                 ctx.count(f'stack-{n}')
                 yield c(tx, f'stack-{n}-{itemlen}')
+    for _ in range(ctx.n(60, 3000)):
+        tx = G.gen_tx(rng, names, max_in=4, max_out=4, big=False)
+        muts = G.random_mutations(rng, tx, names)
+        line0 = tx_to_line(tx)
+        G.apply_mutations(tx, muts)
+        line1 = tx_to_line(tx)
+        ctx.count('after-mutation')
+        yield Case(f'tx_sizes_after {line0} {G.muts_line(muts)}', 'ms', nontrivial=True, tag='after-mutation',
+                   model=lambda ans, line1=line1: (f'm:tx_sizes {line1}', ans), spec=lambda ans, line1=line1: (f's:tx_sizes {line1}', ans))
     allfx = list(FX.all_txs())
     pick = allfx if ctx.thorough else [allfx[i] for i in sorted(rng.sample(range(len(allfx)), ctx.n(150)))]
     for name, i, t in pick:
@@ -44,6 +53,10 @@ def impl(op, a, ctx):
     F = Fields(a)
     if op == 'tx_sizes':
         tx = line_to_tx(F); F.done()
+        return f'ok {tx.get_size()} {tx.get_vsize()}'
+    if op == 'tx_sizes_after':
+        tx = line_to_tx(F); muts = G.parse_muts(F); F.done()
+        G.exercise(tx); G.apply_mutations(tx, muts)
         return f'ok {tx.get_size()} {tx.get_vsize()}'
     if op == 'fx_sizes':
         tx = Transaction.from_raw(F.bytes().hex())
